@@ -306,3 +306,83 @@ Proof.
     + rewrite Em. unfold Bp. rewrite nth_upd_nth_same by (rewrite x0_len; exact Hk). reflexivity.
 Qed.
 End OperandHull.
+
+(* ---------- operands with weight zero: the step leaves their interval as it was, and every value of it is feasible ---------- *)
+Lemma and_down_nth p y bs k : length (weights p) = length bs -> (k < length bs)%nat ->
+  nth k (and_down p y bs) unknown =
+  and_down_one (alpha p) (bias p) (qsum (weights p)) (tsum (weights p) (los bs)) (tsum (weights p) (his bs)) (lo y) (hi y)
+               (nth k (weights p) 0) (nth k bs unknown).
+Proof.
+  intros Hl Hk. unfold and_down.
+  set (f := fun wx : Q * bnd => and_down_one (alpha p) (bias p) (qsum (weights p)) (tsum (weights p) (los bs)) (tsum (weights p) (his bs)) (lo y) (hi y) (fst wx) (snd wx)).
+  rewrite (nth_indep _ unknown (f (0, unknown))) by (rewrite map_length, combine_length; lia).
+  rewrite (map_nth f). rewrite combine_nth by exact Hl. reflexivity.
+Qed.
+
+Section ZeroWeight.
+Variable p : nparams.
+Hypothesis Hw : nonneg (weights p).
+Variable y : bnd.
+Hypothesis Hy : wf_bnd y.
+Variable bs : list bnd.
+Hypothesis Hord : ordered_all bs.
+Hypothesis Hlen : length (weights p) = length bs.
+Variable x0 : list Q.
+Hypothesis Hfeas : feasible CAnd p y bs x0.
+Variable k : nat.
+Hypothesis Hk : (k < length bs)%nat.
+Hypothesis Hwk : nth k (weights p) 0 == 0.
+
+Let bk := nth k bs unknown.
+Lemma bk_wf0 : wf_bnd bk /\ lo bk <= hi bk.
+Proof. apply (proj1 (Forall_forall _ _) Hord). apply nth_In. exact Hk. Qed.
+
+Lemma step_x_zero : bnd_eq (nth k (step_x CAnd p y bs) unknown) bk.
+Proof.
+  unfold step_x. cbn [act_down].
+  assert (Hl2 : length (and_down p (step_y CAnd p y bs) bs) = length bs) by (apply and_down_length; exact Hlen).
+  rewrite (nth_indep _ unknown (agg_bnd WBoth (fst (unknown, unknown)) (snd (unknown, unknown)))) by (rewrite map_length, combine_length, Hl2; lia).
+  rewrite (map_nth (fun bn => agg_bnd WBoth (fst bn) (snd bn))). rewrite combine_nth by (symmetry; exact Hl2). cbn [fst snd].
+  rewrite and_down_nth by assumption. unfold and_down_one.
+  assert (E : qeqb (nth k (weights p) 0) 0 = true) by (apply qeqb_true; exact Hwk). rewrite E.
+  fold bk. destruct bk_wf0 as [[[? ?] [? ?]] ?]. unfold bnd_eq, agg_bnd, unknown; cbn [lo hi]. split; qcases; lra.
+Qed.
+
+Lemma zero_weight_free v : inb bk v -> feasible CAnd p y bs (upd_nth k v x0).
+Proof.
+  intros Hv. destruct Hfeas as [Hb0 Hf0]. split; [apply boxed_upd; [exact Hb0 | exact Hv | exact Hk]|].
+  cbn [act_f] in *. assert (E : and_f p (upd_nth k v x0) == and_f p x0).
+  { unfold and_f. apply clamp01_compat.
+    assert (L0 : length bs = length x0) by (eapply Forall2_length; exact Hb0).
+    rewrite tsum_upd; [|rewrite Hlen; exact L0 | rewrite <- L0; exact Hk].
+    rewrite Hwk. ring. }
+  unfold inb in *. rewrite E. exact Hf0.
+Qed.
+
+Theorem zero_weight_operand_attained :
+  (exists xs, feasible CAnd p y bs xs /\ nth k xs 0 == lo (nth k (step_x CAnd p y bs) unknown)) /\
+  (exists xs, feasible CAnd p y bs xs /\ nth k xs 0 == hi (nth k (step_x CAnd p y bs) unknown)).
+Proof.
+  destruct step_x_zero as [E1 E2]. destruct bk_wf0 as [_ Ho].
+  assert (Lx : (k < length x0)%nat) by (destruct Hfeas as [Hb0 _]; rewrite <- (Forall2_length _ _ _ Hb0); exact Hk).
+  split.
+  - exists (upd_nth k (lo bk) x0). split; [apply zero_weight_free; unfold inb; lra|].
+    rewrite nth_upd_nth_same by exact Lx. rewrite E1. reflexivity.
+  - exists (upd_nth k (hi bk) x0). split; [apply zero_weight_free; unfold inb; lra|].
+    rewrite nth_upd_nth_same by exact Lx. rewrite E2. reflexivity.
+Qed.
+End ZeroWeight.
+
+(* every operand of an And, whatever its (non-negative) weight *)
+Theorem and_operand_attained p y bs x0 k : nonneg (weights p) -> wf_bnd y -> ordered_all bs -> length (weights p) = length bs ->
+  feasible CAnd p y bs x0 -> (k < length bs)%nat -> alpha p == 1 ->
+  (exists xs, feasible CAnd p y bs xs /\ nth k xs 0 == lo (nth k (step_x CAnd p y bs) unknown)) /\
+  (exists xs, feasible CAnd p y bs xs /\ nth k xs 0 == hi (nth k (step_x CAnd p y bs) unknown)).
+Proof.
+  intros Hw Hy Hord Hlen Hf Hk Ha.
+  assert (H0 : 0 <= nth k (weights p) 0).
+  { apply (proj1 (Forall_forall _ _) Hw). apply nth_In. rewrite Hlen. exact Hk. }
+  destruct (Qlt_le_dec 0 (nth k (weights p) 0)) as [Hpos|Hz].
+  - split; [eapply operand_lower_attained | eapply operand_upper_attained]; eassumption.
+  - eapply zero_weight_operand_attained; try eassumption. lra.
+Qed.
